@@ -17,6 +17,7 @@ from scipy.special import logsumexp
 import torch
 
 from .. import config
+from .. import _verif
 from ..flowmodel import FlowModel
 from ..livepoint import (
     live_points_to_array,
@@ -1457,6 +1458,15 @@ class FlowProposal(RejectionProposal):
                     log_u = np.log(np.random.rand(len(log_weights)))
                     accept = (log_weights - log_constant) > log_u
                     n_accepted = np.sum(accept)
+                    if _verif.ENABLED:
+                        _verif.emit(
+                            "populate_batch",
+                            mode="accumulate",
+                            log_w=log_weights - log_constant,
+                            log_u=log_u,
+                            accept=accept,
+                            n_target=N,
+                        )
                 if n_proposed > max_samples:
                     logger.warning("Reached max samples (%s)", max_samples)
                     break
@@ -1468,6 +1478,17 @@ class FlowProposal(RejectionProposal):
                 n_accept_batch = accept.sum()
                 m = min(N - n_accepted, n_accept_batch)
                 samples[n_accepted : n_accepted + m] = x[accept][:m]
+                if _verif.ENABLED:
+                    _verif.emit(
+                        "populate_batch",
+                        mode="batch",
+                        log_w=log_w,
+                        log_u=log_u,
+                        accept=accept,
+                        x=x,
+                        n_before=n_accepted,
+                        n_target=N,
+                    )
                 n_accepted += n_accept_batch
                 logger.debug("n accepted: %s / %s", n_accepted, N)
 
@@ -1475,11 +1496,31 @@ class FlowProposal(RejectionProposal):
             if accept is None or len(accept) != len(samples):
                 log_u = np.log(np.random.rand(len(log_weights)))
                 accept = (log_weights - log_constant) > log_u
+                if _verif.ENABLED:
+                    _verif.emit(
+                        "populate_batch",
+                        mode="accumulate",
+                        log_w=log_weights - log_constant,
+                        log_u=log_u,
+                        accept=accept,
+                        n_target=N,
+                    )
             logger.debug("Total number of samples: %s", samples.size)
             n_accepted = np.sum(accept)
             self.x = samples[accept][:N]
         else:
             self.x = samples[:N]
+
+        if _verif.ENABLED:
+            _verif.emit(
+                "populate_pool",
+                x=self.x,
+                accumulate=bool(self.accumulate_weights),
+                accepted=samples[accept] if self.accumulate_weights else None,
+                n_target=N,
+                n_proposed=n_proposed,
+                max_samples=max_samples,
+            )
 
         self.samples = self.convert_to_samples(self.x, plot=plot)
 
